@@ -16,7 +16,7 @@ CHECK_DEADLOCK FALSE
 """
 ALL_SLOTS = ["out_amount", "second_out", "optional_out", "local_amount", "out_datum", "out_to", "since", "until",
              "mint_amount", "burn_amount", "mint_burn", "mint_redeemer", "input_redeemer", "signer", "meta_value",
-             "meta_key", "reference", "min_amount", "donation", "witness", "two_witnesses", "publish", "vote_deleg"]
+             "meta_key", "reference", "min_amount", "donation", "witness", "two_witnesses", "publish", "vote_deleg", "two_references"]
 
 
 def q(xs):
@@ -497,6 +497,28 @@ def check_c10(tier, seed):
     collect(rep, tr, full, jobs, lambda b: b["why"] in ("malformed", "repro", "layout", "panic")
             or (b["why"] == "rejected" and b["_case"]["cm"] == "all"),
             lambda sig, b, c: sig + (f"|cost_models={c['cm']}" if b["why"] in ("panic", "rejected") else ""))
+    # payloads returned by resolve_tx (inputs selected by the resolver, several blocks, pinned and open): the body fields
+    # that are sets hold no duplicates there either
+    from . import selector
+    g = core.tlc_mc("MC_Selector", selector.CFG.format(maxu=2, maxl=2, maxt1=1, maxt2=0, nblocks=2, wmax=50, explore="FALSE",
+                                                       fallback="FALSE", overlap="TRUE", emit="EmitCase"),
+                    "c10_sel", workers=6, timeout=1200, heap="8g")
+    rep.add_tlc(g)
+    scases = []
+    for c in g.cases:
+        store, qs = selector.realise(c, ["zeta", "alpha", "mid"])
+        if selector.usable(qs):
+            scases.append((store, qs))
+    rng.shuffle(scases)
+    scases = scases[:6000 if quick else 60000]
+    str_, sevs = selector.run_cases(scases, "c10_sel", 0, True, 6)
+    rep.add_trace(str_)
+    rep.extra["resolve_tx_payloads"] = len(scases)
+    for b in str_.bad:
+        if b["why"] in ("dup-inputs", "inputs-mismatch", "inputs-count", "collateral-mismatch") or (b["why"] == "panic"):
+            store, qs = scases[b["case"]]
+            rep.violation(f"malformed|resolve_tx|{b['why']}", f"{b['why']} {b['detail']}",
+                          {"cmd": "select", "store": store, "queries": qs, "why": b["why"], "detail": b["detail"]})
     canary(rep, evs, "c10")
     rep.samples = [{"features": full[5]["meta"]["fs"], "cost_models": full[5]["cm"], "source_tail": jobs[5]["sources"][0][-500:]}]
     return rep.finish()
